@@ -302,7 +302,8 @@ fn gen_stream(g: &mut Rng, with_term: bool) -> Vec<Vec<u8>> {
         }
     }
     if g.chance(1, 2) { v.push(peer_down(g.below(np as u64) as usize)); v.push(route_monitoring(0, 9)); }
-    if with_term { v.push(termination()); }
+    if with_term { v.push(if g.chance(1, 2) { termination() } else { termination_variant(g.below(N_TERMINATION_VARIANTS)) }); }
+    if g.chance(1, 5) { v[0] = initiation_variant(g.below(N_INITIATION_VARIANTS)); }
     v
 }
 
@@ -493,6 +494,34 @@ fn main() {
             _ => { let c = g.range(all.len() as u64 / 2, all.len() as u64) as usize; jobs.push(vec![Item::Data(all[..c].to_vec())]); }
         }
     }
+    // whole sessions built from every legal variant of every message kind (TLV shapes of Initiation / Termination /
+    // Peer Up, every Peer Down reason, Statistics and Route Mirroring bodies), ended in each way: the base streams
+    // above are few (each is cut at every byte), these are many and differ in what the messages look like
+    for _ in 0..(if args.thorough { 2500 } else { 300 }) {
+        let mut msgs = vec![if g.chance(1, 2) { initiation() } else { initiation_variant(g.below(N_INITIATION_VARIANTS)) }];
+        let np = g.range(1, 3) as usize;
+        for i in 0..np { msgs.push(if g.chance(2, 3) { peer_up(i) } else { peer_up_with_info(i, g.below(3)) }); }
+        for n in 0..g.range(1, 5) {
+            let p = g.below(np as u64) as usize;
+            msgs.push(match g.below(7) {
+                0 => statistics_variant(p, g.below(N_STATISTICS_VARIANTS)),
+                1 => route_mirroring(p, g.below(3)),
+                2 => peer_down_variant(p, g.below(N_PEER_DOWN_VARIANTS)),
+                3 => peer_up_with_info(p, g.below(3)),
+                _ => route_monitoring(p, n as usize),
+            });
+        }
+        let with_term = g.chance(2, 3);
+        if with_term { msgs.push(termination_variant(g.below(N_TERMINATION_VARIANTS))); }
+        let all: Vec<u8> = msgs.concat();
+        rec.bump(if with_term { "cut.variant-session-with-termination" } else { "cut.variant-session" });
+        match g.below(4) {
+            0 => jobs.push(vec![Item::Data(all)]),
+            1 => jobs.push(vec![Item::Data(all), Item::Fault(ErrorKind::ConnectionReset)]),
+            2 => jobs.push(vec![Item::Data(all), Item::Term]),
+            _ => jobs.push(vec![Item::Data(all), Item::Data(route_monitoring(0, 77)), Item::Fault(ErrorKind::BrokenPipe)]),
+        }
+    }
     // runs of one rejected message kind at boundary lengths, with peers up and routes announced, then every kind of end
     for _ in 0..(if args.thorough { 600 } else { 90 }) {
         let all: Vec<u8> = run_stream(&mut g).concat();
@@ -511,6 +540,7 @@ fn main() {
     rec.bump_by("cut.skipped-huge-declared-length-after-desync", (before - jobs.len()) as u64);
     rec.bump_by("cut.jobs", jobs.len() as u64);
     for chunk in jobs.chunks(64) {
+        verif_harness::journal(&chunk.iter().map(|s| format!("cut|{}", show_script(s))).collect::<Vec<_>>());
         let obs: Vec<Obs> = rt.block_on(async {
             let hs: Vec<_> = chunk.iter().enumerate().map(|(i, s)| { let s = s.clone(); tokio::spawn(async move { run_cut(s, i as u64 + 1).await }) }).collect();
             let mut out = vec![];
